@@ -574,7 +574,13 @@ first_use (int m, int align, int fill4)
       arena = aligned_alloc (64, OBJSZ + 64);
       Z = aligned_alloc (64, OBJSZ);
     }
-  const char *S = vh_cheap[m][which];
+  /* third variant: the smallest cost each method's setting syntax can spell (loops that run zero or one time) */
+  static const char *const mincost[M_COUNT] = {[M_YESCRYPT] = "$y$j/.$saltSALT",[M_GOST] = "$gy$j/.$saltSALT",[M_SCRYPT] = "$7$0/..../....saltSALT",
+    [M_BCRYPT_B] = "$2b$04$abcdefghijklmnopqrstuu",[M_BCRYPT_Y] = "$2y$04$abcdefghijklmnopqrstuu",[M_BCRYPT_A] = "$2a$04$abcdefghijklmnopqrstuu",
+    [M_BCRYPT_X] = "$2x$04$abcdefghijklmnopqrstuu",[M_SHA512] = "$6$rounds=1000$s",[M_SHA256] = "$5$rounds=1000$s",[M_SHA1] = "$sha1$0$saltSALT",
+    [M_SUNMD5] = "$md5,rounds=1$s",[M_MD5] = "$1$",[M_NT] = "$3$",[M_BSDI] = "_/...salt",[M_BIG] = "..............",[M_DES] = ".."
+  };
+  const char *S = which < 2 ? vh_cheap[m][which] : mincost[m];
   const char *P = "first use of this object";
   char want[CRYPT_OUTPUT_SIZE], sig[200];
   memset (Z, 0, OBJSZ);
@@ -677,7 +683,7 @@ main (int argc, char **argv)
     uint64_t fidx = 0;
     for (int m = 0; m < M_COUNT; m++)
       for (int al = 0; al < 16; al++)
-        for (int fi = 0; fi < 8; fi++)
+        for (int fi = 0; fi < 12; fi++)
           if (vh_mine (fidx++) && !(vh_replay && *vh_replay))
             first_use (m, al, fi);
     restore (pristine, pristine_err);
